@@ -83,7 +83,7 @@ func lagPolicy(t *Tape) *Policy {
 func C01Scenario() *Scenario {
 	return &Scenario{Prop: "C01", Init: func(w *World) {
 		t := w.T
-		s := NewCompositeSetup(w, GenOpts{AllowCluster: true, AllowSSA: true, MaxWorkers: 3, MaxParents: 2, Programs: true, AvoidKnown: true, Resync: true})
+		s := NewCompositeSetup(w, GenOpts{PlainOwner: true, AllowCluster: true, AllowSSA: true, MaxWorkers: 3, MaxParents: 2, Programs: true, AvoidKnown: true, Resync: true})
 		cfg, opts, parents := s.Cfg, s.Opts, s.Parents
 		b := &EnvBudget{Left: t.Pick(4, "edits")}
 		lastEditStep := 0
@@ -183,6 +183,9 @@ func compositeSig(cfg *CompositeCfg, opts *BootOptions) map[string]string {
 		}
 	}
 	sig["rolling"] = fmt.Sprint(rolling)
+	if cfg.PlainOwnerHook {
+		sig["hookOwnerRef"] = "plain-to-parent"
+	}
 	return sig
 }
 
@@ -274,6 +277,9 @@ func convergedCheck(w *World, prop string, sig map[string]string, cfg *Composite
 			want := deepCopy(d)
 			delete(meta(want), "namespace")
 			delete(want, "status") // a child's status belongs to the child's own controller
+			// who owns a child is metacontroller's own business (C02, C04): a reference to
+			// the parent that the hook listed is replaced by the controller reference
+			delete(meta(want), "ownerReferences")
 			if !contains(owned[id], want) {
 				sig := copySig(sig)
 				sig["kindHasGeneration"] = fmt.Sprint(id.res.Generation)
